@@ -383,6 +383,10 @@ class RetryExecutor(CanCustomizeBind, Executor):
                         self._log.debug("Successful cancel - no delegate: %s", job)
                         self._jobs.pop(idx)
                         metrics.RETRY_QUEUE.labels(executor=self._name).dec()
+                        # Let go of the previous (failed) attempt: its traceback
+                        # refers to our frames, and so to this executor, which
+                        # would stay alive for as long as the future is held.
+                        future._clear_delegate()
                         return True
 
                     found_job = job
